@@ -5,8 +5,9 @@
 (*   Defect(model, entry, fmt, force, D, exc, code, warned, problem,       *)
 (*          finite, exit, physics)                                         *)
 (* entry = "cpp" (library API), "c" (C API), "cli" (gm2calc.x).  The rules *)
-(* are the predicates of Defects.tla.  A refusal under force-output is     *)
-(* accepted (it is a rejection); what is never accepted is a result that   *)
+(* are the predicates of Defects.tla.  Under force-output the calculation  *)
+(* must proceed (with a warning or a flagged problem) for every defect     *)
+(* outside Defects!NotLiftable; what is never accepted is a result that    *)
 (* is neither refused, nor flagged as problem, nor accompanied by a        *)
 (* warning.                                                                *)
 (***************************************************************************)
@@ -27,6 +28,7 @@ TDefect ==
                problem |-> ev.problem, finite |-> ev.finite, exit |-> ev.exit, physics |-> ev.physics]
          invs == << I("KnownDefects", o.D \subseteq (MSSMDefects \cup THDMDefects \cup CLIOnlyDefects)),
                     I("RefusedWithoutForce", RefusedWithoutForce(o)),
+                    I("ProceedsUnderForce", ProceedsUnderForce(o)),
                     I("DocumentedClass", DocumentedClass(o)),
                     I("NeverSilent", NeverSilent(o)),
                     I("QuietMeansFinite", QuietMeansFinite(o)),
